@@ -172,7 +172,7 @@ pub fn parse<S>(src: S) -> Result<{start_type_name}, Option<{terminal_enum_name}
 where S: IntoIterator<Item = {terminal_enum_name}> {{
     let mut quasiterminals = src.into_iter()
         .map({quasiterminal_enum_name}::Terminal)
-        .chain(std::iter::once({quasiterminal_enum_name}::Eof))
+        .chain(std::iter::once({quasiterminal_enum_name}::{eof_variant_name}))
         .peekable();
     let mut states = vec![{state_enum_name}::{STATE_VARIANT_PREFIX}{start_state_index}];
     let mut nodes: Vec<{node_enum_name}> = vec![];
